@@ -71,7 +71,7 @@ def gen_quarantine_script(rng):
     """Restarts that quarantine a torn blob (also the one with the highest id), new blobs created afterwards, a
     second quarantine: ids are never handed out twice and quarantined files keep their bytes."""
     K = 4
-    L = ['cfg K=4 dup=1 group=2 bloom=none init=eager runtime=%s nomodel=1 validate=%d' % (rng.choice(['mt', 'ct']), rng.choice([0, 1])), 'trace on', 'open']
+    L = ['cfg K=4 dup=1 group=2 bloom=none init=eager runtime=%s nomodel=1 validate=%d%s' % (rng.choice(['mt', 'ct']), rng.choice([0, 1]), rng.choice(['', '', ' corrdir=set.aside'])), 'trace on', 'open']
     seed = 0
     def w():
         nonlocal seed
